@@ -103,83 +103,61 @@ theorem gap_ge_backoff (bo : Backoffs) (enforce : Bool) (script : List Att) (t :
   · rw [hv] at hv'; injection hv' with _ hra; subst hra
     simp only [effDelay] at hg hs; omega
 
-theorem verdict_429 (r : Resp) (h : r.status = 429) (hb : bodyRaises r = false) :
-    verdict (.http r) = .retry .tooMany (retryAfter r) := by
-  simp [verdict, raises, classify, retryable, h, hb]
+/-- a retried HTTP status: 403, 429 or 5xx -/
+def TransientStatus (st : Nat) : Prop := st = 403 ∨ st = 429 ∨ (500 ≤ st ∧ st < 600)
 
-/-- finding F6: an error response whose body makes the error handling itself raise -/
-theorem verdict_bodyRaises (r : Resp) (hb : bodyRaises r = true) : verdict (.http r) = .raise .other := by
-  have hr : raises r.status = true := by
-    unfold bodyRaises at hb; simp only [Bool.and_eq_true] at hb; exact hb.1
-  simp [verdict, hr, hb]
+theorem verdict_transient (r : Resp) (h : TransientStatus r.status) :
+    verdict (.http r) = .retry (classify r.status) (retryAfter r) := by
+  have h4 : raises r.status = true := by unfold TransientStatus at h; simp [raises]; omega
+  have hr : retryable (classify r.status) = true := by
+    unfold TransientStatus at h
+    unfold classify
+    repeat' split
+    all_goals first | rfl | omega
+  simp [verdict, h4, hr]
 
-/-- After a 429 that asks for `Retry-After` (header or `details.retryAfterSeconds`), the next
-    attempt — whenever there is one — starts no earlier than that, whatever the backoff and
-    whatever `enforce_retry_after`. -/
-theorem gap_ge_retry_after_from (bo : Backoffs) (enforce : Bool) (script : List Att) (i : Nat) (t : Int)
-    (j : Nat) (tj tj' : Int) (a : Att) (r : Resp) (ra : Int)
-    (h0 : (run bo enforce script i t).times[j]? = some tj)
-    (h1 : (run bo enforce script i t).times[j + 1]? = some tj')
-    (ha : script[j]? = some a) (hf : a.fault = .http r) (h429 : r.status = 429)
-    (hra : retryAfter r = some ra) :
-    ra ≤ tj' - (tj + a.lat) := by
-  induction script generalizing i t j with
-  | nil => simp at ha
-  | cons a0 rest ih =>
-    rw [run_cons] at h0 h1
-    cases hv : verdict a0.fault with
-    | success => simp [hv] at h1
-    | raise c => simp [hv] at h1
-    | retry c ra' =>
-      cases hb : bo i with
-      | none => simp [hv, hb] at h1
-      | some b =>
-        simp only [hv, hb] at h0 h1
-        cases j with
-        | zero =>
-          simp at ha h0 h1
-          obtain ⟨tl, htl⟩ := run_times_head bo enforce rest (i + 1) (t + a0.lat + slept (effDelay enforce ra' b))
-          rw [htl] at h1
-          simp at h1
-          subst ha h0
-          cases hbr : bodyRaises r with
-          | true => rw [hf, verdict_bodyRaises r hbr] at hv; cases hv
-          | false => ?_
-          rw [hf, verdict_429 r h429 hbr, hra] at hv
-          injection hv with _ hra'
-          subst hra'
-          have := slept_ge (effDelay enforce (some ra) b)
-          have := effDelay_ge_ra enforce ra b
-          omega
-        | succ j =>
-          simp only [List.getElem?_cons_succ] at h0 h1 ha
-          exact ih (i + 1) _ j h0 h1 ha
+/-- whatever HTTP answer is retried, the Retry-After the loop works with is `retryAfter` of it
+    (every retried `APIError`, since f4c61b5) -/
+theorem retry_ra (r : Resp) (c : ErrClass) (ra : Option Int) (h : verdict (.http r) = .retry c ra) :
+    ra = retryAfter r := by
+  simp only [verdict] at h
+  by_cases h4 : raises r.status = true
+  · simp only [h4, if_true] at h
+    by_cases hr : retryable (classify r.status) = true
+    · simp only [hr, if_true] at h; injection h with _ h; exact h.symm
+    · simp [hr] at h
+  · simp [h4] at h
 
+/-- After a retried API error that carries a usable `Retry-After` (header or
+    `details.retryAfterSeconds`; 429, 5xx, 403 alike), the next attempt — whenever there is one —
+    starts no earlier than that, whatever the backoff and whatever `enforce_retry_after`. -/
 theorem gap_ge_retry_after (bo : Backoffs) (enforce : Bool) (script : List Att) (t : Int)
     (j : Nat) (tj tj' : Int) (a : Att) (r : Resp) (ra : Int)
     (h0 : (request bo enforce script t).times[j]? = some tj)
     (h1 : (request bo enforce script t).times[j + 1]? = some tj')
-    (ha : script[j]? = some a) (hf : a.fault = .http r) (h429 : r.status = 429)
-    (hra : retryAfter r = some ra) :
-    ra ≤ tj' - (tj + a.lat) :=
-  gap_ge_retry_after_from bo enforce script 0 t j tj tj' a r ra h0 h1 ha hf h429 hra
+    (ha : script[j]? = some a) (hf : a.fault = .http r) (hra : retryAfter r = some ra) :
+    ra ≤ tj' - (tj + a.lat) := by
+  obtain ⟨b, c, ra', _, hv, hg⟩ := gap_eq_from bo enforce script 0 t j tj tj' a h0 h1 ha
+  rw [hf] at hv
+  have := retry_ra r c ra' hv
+  rw [this, hra] at hg
+  have := slept_ge (effDelay enforce (some ra) b)
+  have := effDelay_ge_ra enforce ra b
+  omega
 
 /-- a 4xx that is not 403/429 (this includes 401 at the level of `request` itself: the
     re-authentication is `authenticated`'s business, see the vault theorems) -/
 def Fatal4xx (status : Nat) : Prop := 400 ≤ status ∧ status < 500 ∧ status ≠ 403 ∧ status ≠ 429
 
 theorem verdict_fatal (r : Resp) (h : Fatal4xx r.status) :
-    verdict (.http r) = .raise (if bodyRaises r then .other else classify r.status) := by
-  cases hbr : bodyRaises r with
-  | true => simpa using verdict_bodyRaises r hbr
-  | false => ?_
+    verdict (.http r) = .raise (classify r.status) := by
   obtain ⟨h1, h2, h3, h4⟩ := h
   have hr : raises r.status = true := by simp [raises]; omega
   have hc : retryable (classify r.status) = false := by
     unfold classify
     repeat' split
     all_goals first | rfl | omega
-  simp [verdict, hr, hc, hbr]
+  simp [verdict, hr, hc]
 
 /-- the loop never goes past an attempt whose verdict is final (success or a raise), and if it
     gets there, that attempt decides the result -/
@@ -213,22 +191,20 @@ theorem stops_at (bo : Backoffs) (enforce : Bool) (script : List Att) (i : Nat) 
           · intro h; exact this.2 (by omega)
 
 /-- Other 4xx escalate at once: wherever such a response sits in the script, no attempt follows
-    it, and if the loop reaches it the request fails with exactly that error class (or, finding F6,
-    with the foreign exception that a non-dict JSON body provokes — at once as well). -/
+    it, and if the loop reaches it the request fails with exactly that error class (whatever its
+    body: F6 fixed in ba57df1). -/
 theorem fatal_4xx_immediate (bo : Backoffs) (enforce : Bool) (script : List Att) (t : Int)
     (j : Nat) (a : Att) (r : Resp) (ha : script[j]? = some a) (hf : a.fault = .http r)
     (h4 : Fatal4xx r.status) :
     (request bo enforce script t).times.length ≤ j + 1 ∧
     ((request bo enforce script t).times.length = j + 1 →
-      (request bo enforce script t).outcome =
-        .escalated (if bodyRaises r then .other else classify r.status)) :=
+      (request bo enforce script t).outcome = .escalated (classify r.status)) :=
   stops_at bo enforce script 0 t j a ha _ (Or.inr ⟨_, by rw [hf]; exact verdict_fatal r h4, rfl⟩)
 
 /-- … and as the very first response: exactly one attempt, no sleep. -/
 theorem fatal_4xx_first (bo : Backoffs) (enforce : Bool) (rest : List Att) (t : Int) (r : Resp) (lat : Nat)
     (h4 : Fatal4xx r.status) :
-    request bo enforce (⟨.http r, lat⟩ :: rest) t =
-      ⟨[t], [], .escalated (if bodyRaises r then .other else classify r.status), t + lat⟩ := by
+    request bo enforce (⟨.http r, lat⟩ :: rest) t = ⟨[t], [], .escalated (classify r.status), t + lat⟩ := by
   simp [request, run_cons, verdict_fatal r h4]
 
 /-- a success ends the loop -/
@@ -296,34 +272,24 @@ theorem transient_retried_then_escalates (l : List Int) (enforce : Bool) (script
   have := transient_retried_from l enforce script 0 t (by omega) ht
   simpa [request] using this
 
-/-- which HTTP responses are transient: exactly 5xx, 403 and 429 — except (finding F6) those whose
-    body makes the error handling raise -/
+/-- which HTTP responses are transient: exactly 5xx, 403 and 429 — whatever their body (a non-dict
+    JSON value, unusable details: F6 fixed in ba57df1) -/
 theorem transient_http_iff (r : Resp) :
-    (∃ c ra, verdict (.http r) = .retry c ra) ↔
-      ((r.status = 403 ∨ r.status = 429 ∨ (500 ≤ r.status ∧ r.status < 600)) ∧ bodyRaises r = false) := by
+    (∃ c ra, verdict (.http r) = .retry c ra) ↔ TransientStatus r.status := by
   constructor
   · rintro ⟨c, ra, h⟩
-    cases hbr : bodyRaises r with
-    | true => rw [verdict_bodyRaises r hbr] at h; cases h
-    | false => ?_
-    refine ⟨?_, rfl⟩
+    unfold TransientStatus
     unfold verdict raises at h
     by_cases h4 : 400 ≤ r.status
-    · simp only [h4, decide_true, if_true, hbr, Bool.false_eq_true, if_false] at h
+    · simp only [h4, decide_true, if_true] at h
       by_cases hr : retryable (classify r.status) = true
       · unfold classify at hr
         repeat' split at hr
         all_goals first | omega | (simp [retryable] at hr)
       · simp [hr] at h
     · simp [h4] at h
-  · rintro ⟨h, hbr⟩
-    have h4 : raises r.status = true := by simp [raises]; omega
-    have hr : retryable (classify r.status) = true := by
-      unfold classify
-      repeat' split
-      all_goals first | rfl | omega
-    exact ⟨classify r.status, if classify r.status = ErrClass.tooMany then retryAfter r else none,
-      by simp only [verdict, h4, hr, if_true, hbr, Bool.false_eq_true, if_false]⟩
+  · intro h
+    exact ⟨_, _, verdict_transient r h⟩
 
 theorem ceilSec_ge (x : Int) : x ≤ ceilSec x ∧ ceilSec x < x + tickPerSec := by
   unfold ceilSec tickPerSec; omega
@@ -335,11 +301,11 @@ theorem retry_after_http_date (bo : Backoffs) (enforce : Bool) (script : List At
     (j : Nat) (tj tj' : Int) (a : Att) (r : Resp) (d : Int)
     (h0 : (request bo enforce script t).times[j]? = some tj)
     (h1 : (request bo enforce script t).times[j + 1]? = some tj')
-    (ha : script[j]? = some a) (hf : a.fault = .http r) (h429 : r.status = 429) (hd : r.hdr = .date d) :
+    (ha : script[j]? = some a) (hf : a.fault = .http r) (hd : r.hdr = .date d) :
     (∃ c ra, verdict a.fault = .retry c ra) ∧
     0 ≤ tj' - (tj + a.lat) ∧ d ≤ tj' - (tj + a.lat) := by
   have hra : retryAfter r = some (if ceilSec d < 0 then 0 else ceilSec d) := by simp [retryAfter, hd]
-  have := gap_ge_retry_after bo enforce script t j tj tj' a r _ h0 h1 ha hf h429 hra
+  have := gap_ge_retry_after bo enforce script t j tj tj' a r _ h0 h1 ha hf hra
   have hge := (ceilSec_ge d).1
   obtain ⟨_, c, ra, _, hv, _⟩ := gap_eq_from bo enforce script 0 t j tj tj' a h0 h1 ha
   refine ⟨⟨c, ra, hv⟩, ?_, ?_⟩ <;> (split at this <;> omega)
@@ -356,43 +322,59 @@ theorem http_date_delay_exact (r : Resp) (d : Int) (hd : r.hdr = .date d) (hpos 
 example :
     (request (ofList [0]) false [⟨.http ⟨429, .date 2560, .empty, none, false⟩, 0⟩] 0).times = [0, 3072] := by decide
 
-/-- F1/F2 repaired, the unparsable forms: a 429 whose `Retry-After` is garbage or overflows
-    `float()` is — at any position of any script — retried like a 429 without the header (no
-    foreign exception), and the wait before the next attempt is exactly the configured backoff
-    (the body's `retryAfterSeconds` is not consulted, as for any present header). -/
+/-- an answer that carries no usable Retry-After: the header is garbage or overflows `float()`
+    (F1/F2 repaired), or there is no header and the body is not what the client expects — a non-dict
+    JSON value, `details` a string/list, `retryAfterSeconds` not a number (F6 repaired) -/
+def NoUsableRetryAfter (r : Resp) : Prop :=
+  r.hdr = .garbage ∨ r.hdr = .overflow ∨
+  (r.hdr = .absent ∧ (r.payload = .otherValue ∨ r.payload = .badDetails ∨ r.payload = .text ∨
+    r.payload = .empty ∨ r.payload = .otherJson ∨ r.detBad = true))
+
+/-- F1/F2/F6 repaired, positively: such an answer raises no foreign exception — it is retried or
+    escalated by its status like any other (`transient_http_iff`, `fatal_4xx_immediate` do not look at
+    the body) — and when it is retried, at any position of any script, the wait before the next
+    attempt is exactly the configured backoff. -/
 theorem unparsable_retry_after_uses_backoff (bo : Backoffs) (enforce : Bool) (script : List Att) (t : Int)
     (j : Nat) (a : Att) (r : Resp) (ha : script[j]? = some a) (hf : a.fault = .http r)
-    (h429 : r.status = 429) (hg : r.hdr = .garbage ∨ r.hdr = .overflow) (hb : bodyRaises r = false) :
-    verdict a.fault = .retry .tooMany none ∧
+    (hg : NoUsableRetryAfter r) :
+    retryAfter r = none ∧
     ∀ tj tj', (request bo enforce script t).times[j]? = some tj →
       (request bo enforce script t).times[j + 1]? = some tj' →
       ∃ b, bo j = some b ∧ tj' - (tj + a.lat) = slept b := by
-  have hv : verdict a.fault = .retry .tooMany none := by
-    rw [hf, verdict_429 r h429 hb]; rcases hg with hg | hg <;> simp [retryAfter, hg]
-  refine ⟨hv, fun tj tj' h0 h1 => ?_⟩
-  obtain ⟨b, c, ra, hb, hv', hgap⟩ := gap_eq_from bo enforce script 0 t j tj tj' a h0 h1 ha
-  rw [hv] at hv'; injection hv' with _ hra; subst hra
+  have hnone : retryAfter r = none := by
+    unfold retryAfter
+    rcases hg with hg | hg | ⟨hg, hp⟩
+    · simp [hg]
+    · simp [hg]
+    · simp only [hg]
+      unfold detailsRA
+      rcases hp with hp | hp | hp | hp | hp | hp
+      · simp [hp]
+      · simp [hp]
+      · simp [hp]
+      · simp [hp]
+      · simp [hp]
+      · by_cases hs : r.payload = .statusJson
+        · simp only [hs, if_true]; cases r.detRA <;> simp [hp]
+        · simp [hs]
+  refine ⟨hnone, fun tj tj' h0 h1 => ?_⟩
+  obtain ⟨b, c, ra, hb, hv, hgap⟩ := gap_eq_from bo enforce script 0 t j tj tj' a h0 h1 ha
+  rw [hf] at hv
+  have := retry_ra r c ra hv
+  rw [this, hnone] at hgap
   exact ⟨b, by simpa using hb, by simpa [effDelay] using hgap⟩
 
-/-! ### "never waiting less than a server-requested Retry-After" — against what the server SENT
+/-! ### "never waiting less than a server-requested Retry-After" — against what the server SENT -/
 
-  Full statement (FALSE of the code — finding F7, `retry_after_on_5xx_ignored_witness`):
-    ∀ script j a r q, a.fault = .http r → requested r = some q → a next attempt exists → q ≤ gap
-  for every retried status. The code reads Retry-After only `if isinstance(e, APITooManyRequestsError)`:
-  on 503/504/500 (where kube-apiserver does send it) and 403 the value is ignored. The `_partial`
-  theorem carries exactly that guard (`r.status = 429`); nothing else — fractions, any spelling of the
-  header name, HTTP-dates and the body's `retryAfterSeconds` are all served in full. -/
-
-/-- For a 429, whatever the server asked for — delay-seconds with or without a fraction, under any
-    spelling of the header name, an HTTP-date, or the body's `retryAfterSeconds` — the next attempt,
-    whenever there is one, starts no earlier than that (F4 fixed in aac39f2, F5 in e640e5e, the date
-    form in dee5a41/19d7f3b). -/
-theorem gap_ge_requested_partial (bo : Backoffs) (enforce : Bool) (script : List Att) (t : Int)
+/-- Whatever the server asked for with a retried error answer — 429, 5xx or 403 (F7 fixed in
+    f4c61b5); delay-seconds with or without a fraction (F5), under any spelling of the header name
+    (F4), an HTTP-date (F1), or the body's `retryAfterSeconds` — the next attempt, whenever there is
+    one, starts no earlier than that. No guard. -/
+theorem gap_ge_requested (bo : Backoffs) (enforce : Bool) (script : List Att) (t : Int)
     (j : Nat) (tj tj' : Int) (a : Att) (r : Resp) (q : Int)
     (h0 : (request bo enforce script t).times[j]? = some tj)
     (h1 : (request bo enforce script t).times[j + 1]? = some tj')
-    (ha : script[j]? = some a) (hf : a.fault = .http r) (h429 : r.status = 429)
-    (hq : requested r = some q) :
+    (ha : script[j]? = some a) (hf : a.fault = .http r) (hq : requested r = some q) :
     q ≤ tj' - (tj + a.lat) := by
   have key : ∃ ra, retryAfter r = some ra ∧ q ≤ ra := by
     unfold requested at hq
@@ -407,11 +389,15 @@ theorem gap_ge_requested_partial (bo : Backoffs) (enforce : Bool) (script : List
         | none => simp [hd] at hq
         | some d =>
           simp only [hd] at hq ⊢
-          by_cases hz : d ≠ 0
-          · rw [if_pos hz] at hq; rw [if_pos hz]
-            have := (ceilSec_ge d).1
-            exact ⟨ceilSec d, rfl, by injection hq with hq; omega⟩
-          · rw [if_neg hz] at hq; cases hq
+          by_cases hbad : r.detBad = true
+          · simp [hbad] at hq
+          · by_cases hz : d ≠ 0
+            · simp only [hbad, Bool.false_eq_true, if_false] at hq ⊢
+              rw [if_pos hz] at hq; rw [if_pos hz]
+              have := (ceilSec_ge d).1
+              exact ⟨ceilSec d, rfl, by injection hq with hq; omega⟩
+            · simp only [hbad, Bool.false_eq_true, if_false] at hq
+              rw [if_neg hz] at hq; cases hq
       · simp [hp] at hq
     | secs h =>
       simp only [hh] at hq ⊢
@@ -430,7 +416,7 @@ theorem gap_ge_requested_partial (bo : Backoffs) (enforce : Bool) (script : List
     | garbage => simp [hh] at hq
     | overflow => simp [hh] at hq
   obtain ⟨ra, hra, hle⟩ := key
-  have := gap_ge_retry_after bo enforce script t j tj tj' a r ra h0 h1 ha hf h429 hra
+  have := gap_ge_retry_after bo enforce script t j tj tj' a r ra h0 h1 ha hf hra
   omega
 
 /-- … and never a whole second more than asked, unless the backoff is longer: the value the loop
@@ -449,11 +435,15 @@ theorem requested_rounded_up (r : Resp) (q : Int) (hq : requested r = some q) (h
       | none => simp [hd] at hq
       | some d =>
         simp only [hd] at hq ⊢
-        by_cases hz : d ≠ 0
-        · rw [if_pos hz] at hq; rw [if_pos hz]
-          have := ceilSec_ge d
-          exact ⟨ceilSec d, rfl, by injection hq with hq; omega, by injection hq with hq; omega⟩
-        · rw [if_neg hz] at hq; cases hq
+        by_cases hbad : r.detBad = true
+        · simp [hbad] at hq
+        · by_cases hz : d ≠ 0
+          · simp only [hbad, Bool.false_eq_true, if_false] at hq ⊢
+            rw [if_pos hz] at hq; rw [if_pos hz]
+            have := ceilSec_ge d
+            exact ⟨ceilSec d, rfl, by injection hq with hq; omega, by injection hq with hq; omega⟩
+          · simp only [hbad, Bool.false_eq_true, if_false] at hq
+            rw [if_neg hz] at hq; cases hq
     · simp [hp] at hq
   | secs h =>
     simp only [hh] at hq ⊢
@@ -467,57 +457,23 @@ theorem requested_rounded_up (r : Resp) (q : Int) (hq : requested r = some q) (h
   | garbage => simp [hh] at hq
   | overflow => simp [hh] at hq
 
-/-- F5 repaired, positively: any fractional request is served in full — `Retry-After: 2.5` on a zero
-    backoff is the instance in the examples below (waits 3 s) -/
-theorem fractional_delay_rounded_up (bo : Backoffs) (enforce : Bool) (script : List Att) (t : Int)
-    (j : Nat) (tj tj' : Int) (a : Att) (r : Resp) (h : Int)
-    (h0 : (request bo enforce script t).times[j]? = some tj)
-    (h1 : (request bo enforce script t).times[j + 1]? = some tj')
-    (ha : script[j]? = some a) (hf : a.fault = .http r) (h429 : r.status = 429)
-    (hh : r.hdr = .secs h ∨ (r.hdr = .absent ∧ r.payload = .statusJson ∧ r.detRA = some h ∧ h ≠ 0)) :
-    h ≤ tj' - (tj + a.lat) ∧ ceilSec h ≤ tj' - (tj + a.lat) := by
-  have hra : retryAfter r = some (ceilSec h) := by
-    rcases hh with hh | ⟨hh, hp, hd, hz⟩
-    · simp [retryAfter, hh]
-    · simp [retryAfter, hh, detailsRA, hp, hd, hz]
-  have := gap_ge_retry_after bo enforce script t j tj tj' a r _ h0 h1 ha hf h429 hra
-  have := (ceilSec_ge h).1
-  omega
-
-/-- negation witness of the full statement (finding F7): `503` + `Retry-After: 10` with a 1 s
-    backoff: retried after 1 s -/
-theorem retry_after_on_5xx_ignored_witness :
-    ∃ (r : Resp) (q tj tj' : Int), r.status = 503 ∧ requested r = some q ∧
-      (request (ofList [1024]) false [⟨.http r, 0⟩] 0).times = [tj, tj'] ∧ tj' - tj < q :=
-  ⟨⟨503, .secs 10240, .empty, none, false⟩, 10240, 0, 1024, rfl, rfl, by decide, by decide⟩
-
-/-! ### finding F6 / F9: failures of the error handling itself, and of the body read -/
-
-/-- negation witness of "transient failures are retried" (finding F6): a 503 whose JSON body is
-    `[1]`, or a 429 (no header) whose `details.retryAfterSeconds` is `"soon"`, ends the request after
-    ONE attempt with a foreign exception, three backoffs unused. -/
-theorem body_garbage_not_retried_witness :
-    (request (ofList [0, 0, 0]) false [⟨.http ⟨503, .absent, .otherValue, none, false⟩, 0⟩] 0)
-      = ⟨[0], [], .escalated .other, 0⟩ ∧
-    (request (ofList [0, 0, 0]) false [⟨.http ⟨429, .absent, .statusJson, none, true⟩, 0⟩] 0)
-      = ⟨[0], [], .escalated .other, 0⟩ ∧
-    (request (ofList [0, 0, 0]) false [⟨.http ⟨429, .absent, .badDetails, none, false⟩, 0⟩] 0)
-      = ⟨[0], [], .escalated .other, 0⟩ := by decide
-
-/-- … in general: wherever such a response sits, nothing follows it -/
-theorem body_garbage_stops (bo : Backoffs) (enforce : Bool) (script : List Att) (t : Int)
-    (j : Nat) (a : Att) (r : Resp) (ha : script[j]? = some a) (hf : a.fault = .http r)
-    (hb : bodyRaises r = true) :
-    (request bo enforce script t).times.length ≤ j + 1 ∧
-    ((request bo enforce script t).times.length = j + 1 →
-      (request bo enforce script t).outcome = .escalated .other) :=
-  stops_at bo enforce script 0 t j a ha _ (Or.inr ⟨_, by rw [hf]; exact verdict_bodyRaises r hb, rfl⟩)
+/-! ### finding F9: the body read -/
 
 /-- negation witness (finding F9): `api.get` — the server answers 200 at once, reading the body
     raises a network error: ONE attempt, the error escalates although three backoffs are left
     (`response.json()` is outside the retry loop). -/
 theorem body_read_failure_not_retried_witness :
     (getJson (ofList [0, 0, 0]) false [] 0 true) = ⟨[0], [], .escalated .conn, 0⟩ := by decide
+
+-- regressions of the repaired findings, evaluated by the model
+-- F7: 503 + Retry-After: 10 with a 1 s backoff waits 10 s; 504 + details 10 too
+example : (request (ofList [1024]) false [⟨.http ⟨503, .secs 10240, .empty, none, false⟩, 0⟩] 0).times = [0, 10240] := by decide
+example : (request (ofList [1024]) false [⟨.http ⟨504, .absent, .statusJson, some 10240, false⟩, 0⟩] 0).times = [0, 10240] := by decide
+-- F6: a 503 whose body is `[1]`, a 429 whose retryAfterSeconds is "soon", a 429 whose details is a string: retried
+example : (request (ofList [0, 0, 0]) false [⟨.http ⟨503, .absent, .otherValue, none, false⟩, 0⟩] 0) = ⟨[0, 0], [0], .ok, 0⟩ := by decide
+example : (request (ofList [0, 0, 0]) false [⟨.http ⟨429, .absent, .statusJson, none, true⟩, 0⟩] 0) = ⟨[0, 0], [0], .ok, 0⟩ := by decide
+example : (request (ofList [0, 0, 0]) false [⟨.http ⟨429, .absent, .badDetails, none, false⟩, 0⟩] 0) = ⟨[0, 0], [0], .ok, 0⟩ := by decide
+example : NoUsableRetryAfter ⟨429, .absent, .statusJson, none, true⟩ := Or.inr (Or.inr ⟨rfl, by simp⟩)
 
 -- non-vacuity: concrete scripts that meet the hypotheses, evaluated by the model
 example : (request (ofList [1024, 512]) false
@@ -602,7 +558,7 @@ theorem empty_config_never_throttles (s : Throttler) (t : Int) (cs : List (Cycle
       cases b with
       | success => simp [h1]
       | baseExc => simp [h1, h2]
-      | error oi => cases oi <;> simp [h1, h2, nextDelay]
+      | error oi => cases oi <;> simp [h1, h2, nextDelay, Delays.nth]
     intro o ho
     simp only [cycles, List.mem_cons] at ho
     rcases ho with rfl | ho
@@ -634,27 +590,28 @@ theorem success_resets_then_first_delay (l : List Int) (s : Throttler) (t t' : I
   have := (error_step l 0 Throttler.fresh t' ran dur w1 (afterErrors_fresh l)).1
   simpa using this
 
-/-- What leaves the context manager (iterable configurations): an `Exception` of interest raised by
+/-- What leaves the context manager (every configuration — list, tuple, re-iterable, and since
+    3ebc040 a scalar too): an `Exception` of interest raised by
     a block that was allowed to run never does; a BaseException (cancellation) always does; errors
     that are not of interest, or raised by a block that ran against `should_run = False`, are
     re-raised. -/
-theorem swallowed (nth : Nat → Option Int) (s : Throttler) (t : Int) (i : CycleIn) :
-    (i.body = .error true → (cycle (.seq nth) s t i).shouldRun = true →
-      (cycle (.seq nth) s t i).escaped = .none_) ∧
-    (i.body = .success → (cycle (.seq nth) s t i).escaped = .none_) ∧
-    (i.body = .baseExc → ((cycle (.seq nth) s t i).shouldRun = true ∨ i.ran = true) →
-      (cycle (.seq nth) s t i).escaped = .baseException) ∧
-    (i.body = .error false → ((cycle (.seq nth) s t i).shouldRun = true ∨ i.ran = true) →
-      (cycle (.seq nth) s t i).escaped = .exception) ∧
-    (i.body = .error true → (cycle (.seq nth) s t i).shouldRun = false → i.ran = true →
-      (cycle (.seq nth) s t i).escaped = .exception) := by
-  have hsr := (cycle_shouldRun (.seq nth) s t i).1
-  have hiff : (cycle (.seq nth) s t i).shouldRun = true ↔ (phase1 s t i.wake1).2.activeUntil = none := by
+theorem swallowed (cfg : Delays) (s : Throttler) (t : Int) (i : CycleIn) :
+    (i.body = .error true → (cycle cfg s t i).shouldRun = true →
+      (cycle cfg s t i).escaped = .none_) ∧
+    (i.body = .success → (cycle cfg s t i).escaped = .none_) ∧
+    (i.body = .baseExc → ((cycle cfg s t i).shouldRun = true ∨ i.ran = true) →
+      (cycle cfg s t i).escaped = .baseException) ∧
+    (i.body = .error false → ((cycle cfg s t i).shouldRun = true ∨ i.ran = true) →
+      (cycle cfg s t i).escaped = .exception) ∧
+    (i.body = .error true → (cycle cfg s t i).shouldRun = false → i.ran = true →
+      (cycle cfg s t i).escaped = .exception) := by
+  have hsr := (cycle_shouldRun cfg s t i).1
+  have hiff : (cycle cfg s t i).shouldRun = true ↔ (phase1 s t i.wake1).2.activeUntil = none := by
     rw [hsr]; cases (phase1 s t i.wake1).2.activeUntil <;> simp
-  have hesc := phase2_escaped nth (phase1 s t i.wake1).2 (t + (phase1 s t i.wake1).1) (phase1 s t i.wake1).1 i
-  have hsuc := phase2_success (.seq nth) (phase1 s t i.wake1).2 (t + (phase1 s t i.wake1).1) (phase1 s t i.wake1).1 i
-  have hc : cycle (.seq nth) s t i =
-      phase2 (.seq nth) (phase1 s t i.wake1).2 (t + (phase1 s t i.wake1).1) (phase1 s t i.wake1).1 i := rfl
+  have hesc := phase2_escaped cfg (phase1 s t i.wake1).2 (t + (phase1 s t i.wake1).1) (phase1 s t i.wake1).1 i
+  have hsuc := phase2_success cfg (phase1 s t i.wake1).2 (t + (phase1 s t i.wake1).1) (phase1 s t i.wake1).1 i
+  have hc : cycle cfg s t i =
+      phase2 cfg (phase1 s t i.wake1).2 (t + (phase1 s t i.wake1).1) (phase1 s t i.wake1).1 i := rfl
   refine ⟨?_, ?_, ?_, ?_, ?_⟩
   · intro hb h; rw [hc]; exact hesc.1 hb (hiff.mp h)
   · intro hb; rw [hc]; exact (hsuc hb).1
@@ -721,12 +678,12 @@ theorem recovers_after_errors_stop (cfg : Delays) (s : Throttler) (t : Int) (i :
 /-- An interrupted pause is kept: when a wake-up (a new event for the same object) cuts the 2nd
     sleep short, the deadline stays in the throttler — the following cycles are governed by
     `paused_while_active` until it has passed, then by `recovers_after_errors_stop`. -/
-theorem interrupted_pause_is_kept (nth : Nat → Option Int) (s : Throttler) (t : Int) (ran : Bool)
+theorem interrupted_pause_is_kept (cfg : Delays) (s : Throttler) (t : Int) (ran : Bool)
     (dur : Nat) (w1 : Option Nat) (w : Nat) (d : Int) (h : s.activeUntil = none)
-    (hd : (nextDelay nth (s.src.getD 0) s.last).1 = some d) (hlt : (w : Int) < d) :
-    (cycle (.seq nth) s t ⟨.error true, ran, dur, w1, some w⟩).st.activeUntil = some (t + dur + d) ∧
-    (cycle (.seq nth) s t ⟨.error true, ran, dur, w1, some w⟩).sleep2 = w ∧
-    (cycle (.seq nth) s t ⟨.error true, ran, dur, w1, some w⟩).escaped = .none_ := by
+    (hd : (nextDelay cfg.nth (s.src.getD 0) s.last).1 = some d) (hlt : (w : Int) < d) :
+    (cycle cfg s t ⟨.error true, ran, dur, w1, some w⟩).st.activeUntil = some (t + dur + d) ∧
+    (cycle cfg s t ⟨.error true, ran, dur, w1, some w⟩).sleep2 = w ∧
+    (cycle cfg s t ⟨.error true, ran, dur, w1, some w⟩).escaped = .none_ := by
   rw [cycle_inactive _ s t _ h]
   unfold phase2
   have e : t + ↑dur + d - (t + ↑dur) = d := by omega
@@ -736,15 +693,12 @@ theorem interrupted_pause_is_kept (nth : Nat → Option Int) (s : Throttler) (t 
     simp [this, hlt]
   simp [h, hd, e, hs]
 
-/-- A scalar `error_delays` (not an `Iterable`, against the annotation): the first error of
-    interest makes `iter(delays)` raise TypeError out of `throttled()` — nothing is swallowed. Not
-    judged (misconfiguration), but stated: the property's quantifier lists "scalar". -/
-theorem scalar_delays_escape_witness (d : Int) (s : Throttler) (t : Int) (ran : Bool) (dur : Nat)
-    (w1 w2 : Option Nat) (h : s.activeUntil = none) :
-    (cycle (.scalar d) s t ⟨.error true, ran, dur, w1, w2⟩).escaped = .typeError := by
-  rw [cycle_inactive _ s t _ h]
-  unfold phase2
-  simp [h]
+/-- F8 repaired, positively: a scalar `error_delays = d` behaves in every cycle, from every state,
+    exactly like the one-item list `[d]` (so all the theorems above hold for it: the first error
+    pauses `d`, every further one `d` again, nothing escapes). -/
+theorem scalar_delays_is_one_item_list (d : Int) (s : Throttler) (t : Int) (i : CycleIn) :
+    cycle (.scalar d) s t i = cycle (Delays.ofList [d]) s t i := by
+  simp only [cycle, phase2, Delays.nth, Delays.ofList]
 
 /-- … and while the pause lasts, a wake-up (new events for the same object) does not let the block
     run and changes nothing in the throttler. -/
@@ -764,7 +718,7 @@ example : ((cycles (Delays.ofList [1024, 2048]) Throttler.fresh 0
      (⟨.error true, false, 0, none, none⟩, 0)]).map (·.activated)) = [some 1024, some 2048, some 2048] := by decide
 example : (cycle (Delays.ofList [1024]) ⟨some 1, some 1024, some 5000⟩ 100 ⟨.success, false, 0, some 10, none⟩).shouldRun = false := by decide
 example : (cycle (Delays.ofList [1024]) ⟨some 1, some 1024, some 5000⟩ 100 ⟨.success, false, 0, none, none⟩).st = Throttler.fresh := by decide
-example : (cycle (Delays.scalar 5) Throttler.fresh 0 ⟨.error true, false, 0, none, none⟩).escaped = .typeError := by decide
+example : (cycle (Delays.scalar 5) Throttler.fresh 0 ⟨.error true, false, 0, none, none⟩).activated = some 5 := by decide
 
 /-! ## `Vault` + `authenticated` + authenticator — for every label list, any number of requesters -/
 
